@@ -19,6 +19,31 @@ func genConnPlan(t *rapid.T) *Plan {
 		in.DemoteDur = 0
 		in.Grace = rapid.SampledFrom([]time.Duration{0, 2 * p.H, 2*p.H + 1, 5 * p.H}).Draw(t, "grace0")
 	}
+	// make the monitored instance the likely leader when the notifications begin: it starts first, the others
+	// later; its own early stops and link faults are pushed behind the first notifications in 3 of 4 plans
+	settle := rapid.IntRange(0, 3).Draw(t, "settle") > 0
+	firstStart := true
+	for i := range p.Timeline {
+		a := &p.Timeline[i]
+		if a.Inst == 0 && a.Kind == ActStart && firstStart {
+			a.At = 1
+			firstStart = false
+		} else if a.Inst != 0 && a.Kind == ActStart && a.At < 2*p.H {
+			a.At += odd(2 * p.H)
+		} else if settle && a.Inst == 0 && (a.Kind == ActStop || a.Kind == ActStopCtx || a.Kind == ActStart) && a.At < 8*p.H {
+			a.At += odd(8*p.H + p.graceOf(0))
+		}
+	}
+	if settle {
+		in.Rules = nil
+		var ws []Window
+		for _, w := range p.Windows {
+			if w.Inst != 0 || w.From > 6*p.H {
+				ws = append(ws, w)
+			}
+		}
+		p.Windows = ws
+	}
 	G := p.graceOf(0)
 	cur := odd(time.Duration(rapid.Int64Range(int64(p.H), int64(6*p.H)).Draw(t, "first_notif")))
 	n := rapid.IntRange(1, 7).Draw(t, "n_notif")
